@@ -222,6 +222,9 @@ func runCheck(repo, prop, tier string, update bool) int {
 			baseSet[n] = true
 			baseSet[oblStem(n)] = true
 		}
+		for _, n := range base.Universal[r.Key] {
+			baseSet[n] = true
+		}
 		for _, m := range r.Mismatch {
 			undecided = append(undecided, fmt.Sprintf("%s: contract-mismatch: %s", r.Key, m))
 		}
@@ -366,6 +369,24 @@ func runCheck(repo, prop, tier string, update bool) int {
 	}
 
 	if update {
+		for _, r := range results {
+			delete(base.Universal, r.Key)
+			if spec := w.specs.Funcs[r.Key]; spec != nil {
+				for site, cls := range spec.AtCalls {
+					if !strings.HasSuffix(site, "@*") {
+						continue
+					}
+					for k, cl := range cls {
+						lbl := fmt.Sprint(k + 1)
+						if cl.Label != "" {
+							lbl = cl.Label
+						}
+						base.Universal[r.Key] = append(base.Universal[r.Key], fmt.Sprintf("%s#atcall.%s.%s", r.Key, strings.Replace(site, "@*", "@all", 1), lbl))
+					}
+				}
+				sort.Strings(base.Universal[r.Key])
+			}
+		}
 		for k, v := range newBaseline {
 			sort.Strings(v)
 			base.Obligations[k] = v
@@ -474,10 +495,12 @@ func tail(s string, n int) string {
 }
 
 var reOblSuffix = regexp.MustCompile(`(\.e\d+|~\d+)$`)
+var reSite = regexp.MustCompile(`@all\.site\d+\.`)
 
 // oblStem strips the per-edge / duplicate suffixes, so that a change in the number of back
 // edges or call sites does not turn a known obligation into an unknown one.
 func oblStem(n string) string {
+	n = reSite.ReplaceAllString(n, "@all.")
 	for {
 		m := reOblSuffix.FindString(n)
 		if m == "" {
